@@ -34,7 +34,10 @@ Check(e) ==
      ELSE IF \E v \in 1..2 : ~ObsBoundQ(e.cfgopt.lb[v], e.lb[v], ToOpt(<<e.lb[v], 1>>, s[v], o[v]))
                              \/ ~ObsBoundQ(e.cfgopt.ub[v], e.ub[v], ToOpt(<<e.ub[v], 1>>, s[v], o[v])) THEN "transformed_bounds_wrong"
      ELSE IF \E v \in 1..2 : ~ObsEq(e.cfgopt.coef[v], QDiv(RowOptCoef(e.a, s)[v], eqs)) THEN "transformed_linear_coefficients_wrong"
-     ELSE IF ~ObsBoundQ(e.cfgopt.ll, e.l, RowOptBound(e.l, e.a, s, o)) \/ ~ObsBoundQ(e.cfgopt.lu, e.u, RowOptBound(e.u, e.a, s, o)) THEN "transformed_linear_bounds_wrong"
+     ELSE IF ~ObsBoundQ(e.cfgopt.ll, e.l, RowOptBound(e.l, e.a, s, o)) THEN "transformed_linear_bounds_wrong"
+     ELSE IF e.nar = 0 /\ ~ObsBoundQ(e.cfgopt.lu, e.u, RowOptBound(e.u, e.a, s, o)) THEN "transformed_linear_bounds_wrong"
+     \* a narrow range (upper = lower + 2^-12) stays a range: the transformed upper bound lies strictly above the lower one
+     ELSE IF e.nar = 1 /\ ~(e.cfgopt.lu.k = "q" /\ QLt(ObsQ(e.cfgopt.ll), ObsQ(e.cfgopt.lu))) THEN "narrow_range_collapsed_by_the_transformation"
      ELSE IF \E v \in 1..2 : ~ObsEq(e.cfgopt.magn[v], QDiv(ObsQ(e.cfgplain.magn[v]), s[v])) THEN "transformed_magnitudes_wrong"
      ELSE "ok"
 
